@@ -12,6 +12,7 @@ fn main() {
     }
     let family = args[1].clone();
     if family == "untrusted-worker" { fam::untrusted::worker(&args[2], &args[3], args[4].parse().unwrap_or(0)); return; }
+    if family == "csvsample" { fam::untrusted::csv_sample(&args[2]); return; }
     if family == "debugload" { fam::untrusted::debug_load(&args[2]); return; }
     if family == "qdebug" { install_panic_hook(); fam::query::debug(&args[2]); return; }
     if family == "qlrefusals" { install_panic_hook(); fam::stamql::refusal_histogram(1, 3000); return; }
